@@ -77,6 +77,25 @@ def is_feasible_call(e):
     return isinstance(e, ast.Call) and call_name(e) == FEAS
 
 
+def facts_through_temps(fl, node):
+    """facts_at with boolean temporaries looked through: `ok = feasible(s, infra); if ok:` is the test `if feasible(s, infra):` (the
+    call keeps the names of its arguments - only the temporaries holding the *result* are followed)"""
+    out = []
+    for a, t in facts_at(fl, node):
+        e, nd, steps = a, node, 0
+        while isinstance(e, ast.Name) and steps < 4:
+            ds = fl.defs_at(nd, e.id)
+            if len(ds) != 1:
+                break
+            d = next(iter(ds))
+            how = fl.def_how(d, e.id)
+            if how[0] != "assign" or how[1] is None:
+                break
+            e, nd, steps = how[1], d, steps + 1
+        out.append((e, t))
+    return out
+
+
 def rule_pipeline(ck, rid="C07.R1"):
     repo = ck.repo
     for cname, alg in (("SortedSchedulingAlgo", "sorting_algorithm"), ("RoundRobin", "round_robin")):
@@ -312,10 +331,16 @@ def rule_bounds(ck):
                         reaches = True          # (through any chain of local re-definitions: `p = p[lb <= p]; p = p[p <= ub]; levels[i] = p`)
             ck.require(reaches, "C07.R2", rr, n.stmt, ok="the filtered levels are stored back for the station", bad="the filtered level list is never stored back into allowable_pilots", sink=f"rr:filter:{k}:stored")
     # continuous grid spans [min rate, max rate]
-    grids = [c for n, c in calls_in(rl, "arange")]
-    for c in grids:
-        ok = len(c.args) == 3 and canon(c.args[0]) == "session.min_rates[0]" and canon(c.args[2]) == "self.continuous_inc" and \
-            linear(c.args[1]) == linear(ast.parse("session.max_rates[0] + self.continuous_inc / 2", mode="eval").body)
+    grids = [(n, c) for n, c in calls_in(rl, "arange")]
+    for gn, c in grids:
+        old_keep = getattr(rl, "keep", set())
+        rl.keep = set(old_keep) | {"session"}
+        try:
+            xa = [rl.expand(a, gn) for a in c.args]          # through temporaries (`grid_end = session_max + inc / 2`)
+        finally:
+            rl.keep = old_keep
+        ok = len(xa) == 3 and canon(xa[0]) == "session.min_rates[0]" and canon(xa[2]) == "self.continuous_inc" and \
+            linear(xa[1]) == linear(ast.parse("session.max_rates[0] + self.continuous_inc / 2", mode="eval").body)
         ck.require(ok, "C07.R2", rr, c, ok="continuous grid from the min rate in steps of continuous_inc up to the max rate", bad="the continuous level grid is not arange(min, max + inc/2, inc)",
                    sink="rr:grid")
     # preprocessing minima
@@ -431,12 +456,16 @@ def rule_tentative(ck):
         ck.require(("infrastructure.is_continuous[infrastructure.get_station_index(session.station_id)]", False) in fs, "C07.R4", sa, c, ok="level search for finite-rate EVSEs",
                    bad="the discrete search is not on the not-continuous edge", sink="dispatch:discrete")
     # max_feasible_rate
-    mf = anchored_fn(repo, "SortedSchedulingAlgo.max_feasible_rate", ("new_schedule",), nested=True)
+    mf = anchored_fn(repo, "SortedSchedulingAlgo.max_feasible_rate", (), nested=True)
     ml = flow_of(mf)
+    # the working copy of the schedule the candidate rate is written into, whatever it is called
+    if not [nm for nd in ml.cfg.nodes for nm, how in ml._defs.get(nd, {}).items() if how[0] == "assign" and how[1] is not None
+            and canon(how[1]) in ("copy(schedule)", "schedule.copy()", "np.copy(schedule)", "np.array(schedule)", "deepcopy(schedule)")]:
+        raise AnalysisError("SortedSchedulingAlgo.max_feasible_rate was restructured: no working copy of the schedule (copy(schedule)) the candidate rate is written into")
     for r in [n for n in ml.cfg.nodes if n.kind == "return"]:
         s = canon(r.expr)
         if s == "ub":
-            fs = [(a, t) for a, t in facts_at(ml, r) if is_feasible_call(a)]
+            fs = [(a, t) for a, t in facts_through_temps(ml, r) if is_feasible_call(a)]
             ok = False
             for a, t in fs:
                 if t and a.args:
@@ -456,7 +485,7 @@ def rule_tentative(ck):
         else:
             ck.violation("C07.R3", mf, r.stmt, f"max_feasible_rate returns `{s}`: only ub (proved feasible) or the bisection's lower end may be returned", sink="mfr:return")
     pre = [n for n in ml.cfg.nodes if n.kind == "raise"]
-    ck.require(any(any(is_feasible_call(a) and not t for a, t in facts_at(ml, r)) for r in pre), "C07.R3", mf, "initial feasibility check", ok="refuses to search from an infeasible schedule",
+    ck.require(any(any(is_feasible_call(a) and not t for a, t in facts_through_temps(ml, r)) for r in pre), "C07.R3", mf, "initial feasibility check", ok="refuses to search from an infeasible schedule",
                bad="max_feasible_rate no longer rejects an infeasible starting schedule", sink="mfr:initial")
     bi, bl, lo, hi = bisection_roles(repo)
     idx_ok = ("station_index",) + tuple(p for p in bi.params if p not in (lo, hi))
@@ -467,7 +496,7 @@ def rule_tentative(ck):
             bb = bind_args(e, bi, method=False)
             al, ah = canon(bl.expand(bb[lo], r)) if lo in bb else None, canon(bl.expand(bb[hi], r)) if hi in bb else None
             a = [None, al, ah]
-            feas = [lab for tn, lab in bl.cfg.edges_dominating(r) if tn.kind == "test" and is_feasible_call(tn.expr)]
+            feas = [t_ for a_, t_ in facts_through_temps(bl, r) if is_feasible_call(a_)]
             if feas and feas[-1]:
                 ok = al in mids and ah == hi
                 ck.require(ok, "C07.R3", bi, e, ok="feasible: the lower end moves up to mid", bad=f"on the feasible edge the bisection continues with ({a[1]}, {a[2]}): the lower end must move to mid and the upper stay",
